@@ -22,7 +22,7 @@ func witnesses() []witnessCase {
 			// item 12a: Iterate through a view whose full prefix is non-empty filters the
 			// overlay with the un-prefixed prefix: a staged write is invisible
 			Name:   "iterate-prefixed-view-misses-staged-write",
-			Expect: "diffdb.Iterate:view=prefixed:missing-keys",
+			Expect: "diffdb.Iterate:view=prefixed:missing-or-skipped-keys",
 			Prog: &program{RootPrefix: b("a"), Ops: []op{
 				{K: "set", Key: b("b"), Val: b("1")},
 				{K: "iterate", Key: b("b"), Limit: -1},
@@ -49,7 +49,7 @@ func witnesses() []witnessCase {
 		{
 			// item 12b: limit is given to the store scan before staged-deleted keys are dropped
 			Name:   "range-limit-applied-before-staged-deletes-are-filtered",
-			Expect: "diffdb.Range:dir=fwd:missing-keys:limit-and-staged-deletes-in-scan",
+			Expect: "diffdb.Range:dir=fwd:missing-or-skipped-keys:only-with-limit:staged-deletes-present",
 			Prog: &program{RootPrefix: hx{}, Init: []kvp{{K: b("a")}, {K: b("b")}}, Ops: []op{
 				{K: "del", Key: b("a")},
 				{K: "range", Start: hx{}, End: hx{0xff}, Limit: 1},
@@ -57,7 +57,7 @@ func witnesses() []witnessCase {
 		},
 		{
 			Name:   "iterate-limit-applied-before-staged-deletes-are-filtered",
-			Expect: "diffdb.Iterate:view=unprefixed:missing-keys:limit-and-staged-deletes-in-scan",
+			Expect: "diffdb.Iterate:view=unprefixed:missing-or-skipped-keys:only-with-limit:staged-deletes-present",
 			Prog: &program{RootPrefix: hx{}, Init: []kvp{{K: b("a")}, {K: b("b")}}, Ops: []op{
 				{K: "del", Key: b("a")},
 				{K: "iterate", Key: hx{}, Limit: 1},
@@ -67,7 +67,7 @@ func witnesses() []witnessCase {
 			// the engine's own call shape: getBFTParams = Range(0,h,1,reverse) after
 			// deleteBFTParams-style deletes (fixed-length keys)
 			Name:   "engine-shaped-reverse-limit1-after-delete",
-			Expect: "diffdb.Range:dir=rev:missing-keys:limit-and-staged-deletes-in-scan",
+			Expect: "diffdb.Range:dir=rev:missing-or-skipped-keys:only-with-limit:staged-deletes-present",
 			Prog: &program{RootPrefix: b("s"), Init: []kvp{{K: hx{'s', 0, 0, 0, 1}, V: b("1")}, {K: hx{'s', 0, 0, 0, 2}, V: b("2")}}, Ops: []op{
 				{K: "del", Key: hx{0, 0, 0, 2}},
 				{K: "range", Start: hx{0, 0, 0, 0}, End: hx{0, 0, 0, 9}, Limit: 1, Rev: true},
@@ -107,7 +107,7 @@ func witnesses() []witnessCase {
 		{
 			// also for equal-length keys: end = 0xffffffff
 			Name:   "db-reverse-range-empty-when-end-is-all-0xff",
-			Expect: "db.IterateRange:dir=rev:missing-keys:reverse-and-end-is-all-0xff-or-empty",
+			Expect: "db.IterateRange:dir=rev:missing-or-skipped-keys:reverse-and-end-is-all-0xff-or-empty",
 			DBProg: &dbProgram{Init: []kvp{{K: hx{0, 0, 0, 1}}}, Ops: []dbOp{
 				{K: "range", Start: hx{0, 0, 0, 0}, End: hx{0xff, 0xff, 0xff, 0xff}, Limit: -1, Rev: true},
 			}},
